@@ -316,6 +316,32 @@ theorem pr_all (g : Gram) : ∀ n, PR g n
           fun _ _ _ h => by simp [pEx] at h, fun _ _ _ h => by simp [pSub] at h⟩
   | n + 1 => pr_step g n (pr_all g n)
 
+/-- whatever its operands are, the tree `formula` returns is the documented grouping of the flat
+    sequence of operands and operators it read -/
+theorem pForm_wellgrouped (g : Gram) (n : Nat) (ts : List Tok) (t : Trm) (r : List Tok)
+    (h : pForm g n ts = some (t, r)) : WellGrouped t ∧ OpsIn g.N t.tail := by
+  cases n with
+  | zero => simp [pForm] at h
+  | succ n =>
+    simp only [pForm] at h
+    split at h
+    · cases h
+    · next a r0 hp =>
+      split at h
+      · cases h
+      · next ps r' hc =>
+        split at h
+        · next he =>
+          obtain ⟨h1, h2⟩ := Prod.mk.inj (Option.some.inj h); subst h1; subst h2
+          have hops := ((pr_all g n).2.1 _ _ _ hc).2
+          have hwg := parse_wellgrouped g.N a ps hops
+          have hin := parse_inorder g.N a ps hops
+          have hnil : (parseFormula g.N a ps).2 = [] := List.isEmpty_iff.mp he
+          have htail : (parseFormula g.N a ps).1.tail = ps := by
+            have := hin.2; rw [hnil, List.append_nil] at this; exact this.symm
+          exact ⟨hwg, by rw [htail]; exact hops⟩
+        · cases h
+
 /-! statements and programs -/
 
 theorem pTarget_sound (g : Gram) (n : Nat) (ts : List Tok) (x : Nat) (subs : List (Sub Fac)) (r : List Tok)
